@@ -372,6 +372,244 @@ def recover_all(states, tag):
     return res, note
 
 
+# ---------------------------------------------------------------- crash states from the system call trace
+STRACE = ["strace", "-f", "-y", "-xx", "-s", "100000000", "-e",
+          "trace=openat,creat,write,pwrite64,lseek,close,unlink,unlinkat,rename,renameat,renameat2,ftruncate,truncate"]
+
+
+def unhex(t):
+    t = t.strip()
+    if t.startswith('"'):
+        t = t[1:t.rindex('"')]
+    return bytes.fromhex(t.replace("\\x", ""))
+
+
+def fd_path(t):
+    m = re.match(r"(-?\d+|AT_FDCWD)<(.*)>$", t.strip())
+    if not m:
+        return None, None
+    return m.group(1), unhex(m.group(2)).decode("utf8", "replace")
+
+
+def parse_strace(path):
+    """-> list of (syscall, [args], ret) in completion order"""
+    pending, out = {}, []
+    for ln in open(path, errors="replace"):
+        m = re.match(r"(\d+) (.*)$", ln.rstrip("\n"))
+        if not m:
+            continue
+        pid, rest = m.group(1), m.group(2)
+        if rest.endswith("<unfinished ...>"):
+            pending[pid] = rest[:-len("<unfinished ...>")]
+            continue
+        m2 = re.match(r"<\.\.\. \w+ resumed>(.*)$", rest)
+        if m2:
+            rest = pending.pop(pid, "") + m2.group(1)
+        m3 = re.match(r"(\w+)\((.*)\)\s*= (-?\d+)", rest)
+        if not m3:
+            continue
+        out.append((m3.group(1), m3.group(2).split(", "), int(m3.group(3))))
+    return out
+
+
+def trace_events(log, live, outfile):
+    """File operations below `live` and the harness' marker lines, in order.
+    -> list of ("create"|"trunc"|"write"|"unlink"|"rename"|"marker", ...)"""
+    evs, off, mbuf = [], {}, b""
+    live = live.rstrip("/") + "/"
+
+    def rel(pth):
+        pth = os.path.normpath(pth)
+        return pth[len(live):] if (pth + "/").startswith(live) and len(pth) > len(live) else None
+    for sc, a, ret in parse_strace(log):
+        if ret < 0:
+            continue
+        if sc in ("openat", "creat"):
+            pth = unhex(a[1] if sc == "openat" else a[0]).decode("utf8", "replace")
+            flags = a[2] if sc == "openat" else "O_CREAT|O_WRONLY|O_TRUNC"
+            r = rel(pth)
+            if r is None or "O_DIRECTORY" in flags:
+                continue
+            off[ret] = (r, "APPEND" if "O_APPEND" in flags else 0)
+            if "O_CREAT" in flags:
+                mode = int(a[3], 8) if sc == "openat" and len(a) > 3 else 0o644
+                evs.append(("create", r, mode))
+            if "O_TRUNC" in flags:
+                evs.append(("trunc", r, 0))
+        elif sc in ("write", "pwrite64"):
+            fd, pth = fd_path(a[0])
+            if pth is None:
+                continue
+            data = unhex(a[1])[:ret]
+            if os.path.normpath(pth) == os.path.normpath(outfile):
+                mbuf += data
+                while b"\n" in mbuf:
+                    line, mbuf = mbuf.split(b"\n", 1)
+                    try:
+                        evs.append(("marker", json.loads(line.decode())))
+                    except ValueError:
+                        pass
+                continue
+            r = rel(pth)
+            if r is None:
+                continue
+            fdn = int(fd)
+            if sc == "pwrite64":
+                evs.append(("write", r, int(a[3]), data))
+            else:
+                cur = off.get(fdn, (r, 0))[1]
+                evs.append(("write", r, cur, data))
+                off[fdn] = (r, "APPEND" if cur == "APPEND" else cur + len(data))
+        elif sc == "lseek":
+            fd, pth = fd_path(a[0])
+            if pth is not None and rel(pth) is not None:
+                off[int(fd)] = (rel(pth), ret)
+        elif sc == "ftruncate":
+            fd, pth = fd_path(a[0])
+            if pth is not None and rel(pth) is not None:
+                evs.append(("trunc", rel(pth), int(a[1])))
+        elif sc == "truncate":
+            r = rel(unhex(a[0]).decode("utf8", "replace"))
+            if r is not None:
+                evs.append(("trunc", r, int(a[1])))
+        elif sc in ("unlink", "unlinkat"):
+            r = rel(unhex(a[0] if sc == "unlink" else a[1]).decode("utf8", "replace"))
+            if r is not None:
+                evs.append(("unlink", r))
+        elif sc in ("rename", "renameat", "renameat2"):
+            strs = [x for x in a if x.strip().startswith('"')]
+            if len(strs) >= 2:
+                r1, r2 = rel(unhex(strs[0]).decode("utf8", "replace")), rel(unhex(strs[1]).decode("utf8", "replace"))
+                if r1 is not None and r2 is not None:
+                    evs.append(("rename", r1, r2))
+        elif sc == "close":
+            fd, _ = fd_path(a[0])
+            if fd is not None and fd != "AT_FDCWD":
+                off.pop(int(fd), None)
+    return evs
+
+
+def apply_event(vfs, modes, e, upto=None):
+    k = e[0]
+    if k == "create":
+        if e[1] not in vfs:
+            vfs[e[1]] = bytearray()
+            modes[e[1]] = e[2]
+    elif k == "trunc":
+        if e[1] in vfs:
+            del vfs[e[1]][e[2]:]
+    elif k == "write":
+        b = vfs.setdefault(e[1], bytearray())
+        pos = len(b) if e[2] == "APPEND" else e[2]
+        data = e[3] if upto is None else e[3][:upto]
+        if len(b) < pos:
+            b.extend(b"\0" * (pos - len(b)))
+        b[pos:pos + len(data)] = data
+    elif k == "unlink":
+        vfs.pop(e[1], None)
+    elif k == "rename":
+        if e[1] in vfs:
+            vfs[e[2]] = vfs.pop(e[1])
+            modes[e[2]] = modes.pop(e[1], 0o644)
+
+
+def materialise(vfs, modes, d):
+    for sub in ("pcap", "index", "snapshot", "state", "converter", "watch"):
+        os.makedirs(os.path.join(d, sub), exist_ok=True)
+    for r, b in vfs.items():
+        pth = os.path.join(d, r)
+        os.makedirs(os.path.dirname(pth), exist_ok=True)
+        with open(pth, "wb") as f:
+            f.write(bytes(b))
+        os.chmod(pth, modes.get(r, 0o644))
+
+
+def alts_until_ack(metas, after):
+    """The copies after a crash point up to the first one that acknowledges an API call: the call in
+    progress at the crash point may or may not have taken effect (copies made at gates in between
+    can be older than their position in the trace)."""
+    out = []
+    for j in after:
+        out.append(j)
+        if metas[j][1]["label"].startswith("ack"):
+            break
+    return out
+
+
+def trace_states(base, evs, rng, limit):
+    """One crash state after every file operation on index/, state/, snapshot/ (and inside writes).
+    -> (metas from the markers, states)"""
+    metas, points = [], []
+    for i, e in enumerate(evs):
+        if e[0] == "marker":
+            if "snap" in e[1] and "label" in e[1]:
+                metas.append((i, e[1]))
+            continue
+        if e[1].split("/")[0] in ("index", "state", "snapshot") or (e[0] == "rename" and e[2].split("/")[0] in ("index", "state", "snapshot")):
+            points.append((i, None))
+            if e[0] == "write" and len(e[3]) >= 2:
+                points.append((i, rng.randrange(1, len(e[3]))))
+    if len(points) > limit:
+        keep = set(rng.sample(range(len(points)), limit))
+        points = [p for j, p in enumerate(points) if j in keep]
+    want = {}
+    for i, cut in points:
+        want.setdefault(i, []).append(cut)
+    states, vfs, modes = [], {}, {}
+    crash = os.path.join(base, "tcrash")
+    n = 0
+    mlist = [m for _, m in metas]
+    for i, e in enumerate(evs):
+        if e[0] == "marker":
+            continue
+        for cut in sorted(want.get(i, []), key=lambda c: (c is None, c)):
+            if cut is not None:
+                v2, m2 = {k: bytearray(v) for k, v in vfs.items()}, dict(modes)
+                apply_event(v2, m2, e, cut)
+                d = os.path.join(crash, "%05d" % n)
+                materialise(v2, m2, d)
+                kind, note = "trace-inside-write", "%s: %d of %d bytes at offset %s written" % (e[1], cut, len(e[3]), e[2])
+            else:
+                continue
+            before = [j for j, (pos, _) in enumerate(metas) if pos < i]
+            after = [j for j, (pos, _) in enumerate(metas) if pos > i]
+            states.append({"dir": d, "meta": before[-1] if before else None, "alt": alts_until_ack(metas, after), "kind": kind, "note": note})
+            n += 1
+        apply_event(vfs, modes, e)
+        if None in want.get(i, []):
+            d = os.path.join(crash, "%05d" % n)
+            materialise(vfs, modes, d)
+            before = [j for j, (pos, _) in enumerate(metas) if pos < i]
+            after = [j for j, (pos, _) in enumerate(metas) if pos > i]
+            states.append({"dir": d, "meta": before[-1] if before else None, "alt": alts_until_ack(metas, after), "kind": "trace-after-" + e[0],
+                           "note": "after %s %s" % (e[0], " ".join(str(x) for x in e[1:3] if not isinstance(x, (bytes, bytearray))))})
+            n += 1
+    return mlist, states
+
+
+def run_traced(scens):
+    """Scenarios under strace (go test -exec). -> list of (base, evs, note)"""
+    specs = []
+    for si, scen in enumerate(scens):
+        base = os.path.join(run_dir(), "t%03d" % si)
+        shutil.rmtree(base, ignore_errors=True)
+        os.makedirs(base)
+        specs.append({"scenario": scen, "dir": base, "out": os.path.join(base, "run.out")})
+    sf, log = os.path.join(run_dir(), "tspecs.json"), os.path.join(run_dir(), "strace.log")
+    json.dump(specs, open(sf, "w"))
+    if os.path.exists(log):
+        os.remove(log)
+    rc, out, _ = go_test("./internal/index/manager/", overlay(), "^TestVerifC12Run$", {"VERIF_C12_SCEN": sf}, timeout=1500,
+                         extra=["-exec", " ".join(STRACE + ["-o", log])])
+    res = []
+    for sp in specs:
+        metas, errs, closed = read_run(sp["out"])
+        note = "" if (closed and not errs) else "traced scenario run failed rc=%d %s %s" % (rc, errs[:1], out[-500:])
+        evs = trace_events(log, os.path.join(sp["dir"], "live"), sp["out"]) if os.path.exists(log) else []
+        res.append((sp["dir"], evs, note))
+    return res
+
+
 # ---------------------------------------------------------------- the direct oracle
 def tagview(tags):
     out = {}
@@ -396,27 +634,26 @@ def versions(metas):
 def judge(state, metas, rec, vers):
     """-> list of (kind, text) failures of the property for this crash state"""
     fails = []
-    m = metas[state["meta"]]
+    EMPTY = {"tags": [], "streams": {}, "config": False, "webhooks": [], "indexes": []}
+    m = metas[state["meta"]] if state["meta"] is not None else EMPTY
     if rec is None or "end" not in rec:
         return [("new-crashed", "manager.New did not return: %s" % ((rec or {}).get("fatal") or "no output"))]
     r = rec["end"]
     if r["new"] != "ok":
         return [("new-failed", "manager.New: " + r["new"])]
     # tags
-    want = [tagview(m["tags"])]
-    if state.get("alt") is not None:
-        want.append(tagview(metas[state["alt"]]["tags"]))
-    if state["kind"] == "torn-state" and state["meta"] + 1 < len(metas):
-        want.append(tagview(metas[state["meta"] + 1]["tags"]))       # never acceptable for a torn file, kept for the message
-        want = want[:1]
+    alt = state.get("alt")
+    alt = [] if alt is None else (alt if isinstance(alt, list) else [alt])
+    want = [tagview(m["tags"])] + [tagview(metas[j]["tags"]) for j in alt]
     got = tagview(r["tags"])
     if got not in want:
         for k in sorted(set(got) | set(want[0])):
             if got.get(k) != want[0].get(k):
                 fails.append(("tag", "tag %s: acknowledged %s, after restart %s" % (k, want[0].get(k), got.get(k))))
-    if r["config"] != m["config"]:
+    alts = [m] + [metas[j] for j in alt]
+    if r["config"] not in [x["config"] for x in alts]:
         fails.append(("config", "config: acknowledged %s, after restart %s" % (m["config"], r["config"])))
-    if sorted(r["webhooks"] or []) != sorted(m["webhooks"] or []):
+    if sorted(r["webhooks"] or []) not in [sorted(x["webhooks"] or []) for x in alts]:
         fails.append(("webhooks", "webhooks: acknowledged %s, after restart %s" % (m["webhooks"], r["webhooks"])))
     # streams: every stream visible before the crash is visible under its id in that or a newer version
     for k, s in (m.get("streams") or {}).items():
@@ -449,6 +686,8 @@ def order_defect_shape(state, metas, rec):
     """The known finding: the published index files sorted by name are not in memory order
     (a merged file is named later than an index published after the merge started) and the only
     failures are old stream versions."""
+    if state["meta"] is None:
+        return False
     m = metas[state["meta"]]
     idx = m.get("indexes") or []
     return idx != sorted(idx)
@@ -552,6 +791,15 @@ def main(tier, seed, replay=None):
         states = derive(base, metas, rng, cuts) if metas else []
         per.append((scen, base, metas, states))
         all_states += states
+    # the same scenarios (a few of them in the quick tier) under a system call trace: one crash state
+    # after every file operation and inside writes, as the implementation really performs them
+    tscens = scens if (replay or tier != "quick") else scens[:4]
+    for (scen, (base, evs, note)) in zip(tscens, run_traced(tscens)):
+        if note:
+            notes.append("%s: %s" % (scen["name"], note))
+        metas, states = trace_states(base, evs, rng, 140 if tier == "quick" else 1500)
+        per.append((scen, base, metas, states))
+        all_states += states
     recs, rnote = recover_all(all_states, "all")
     if rnote:
         notes.append(rnote)
@@ -582,7 +830,7 @@ def main(tier, seed, replay=None):
             if key in reported:
                 continue
             reported.add(key)
-            m = metas[s["meta"]]
+            m = metas[s["meta"]] if s["meta"] is not None else {"label": "(before the first copy)", "step": -1, "indexes": []}
             obj = {"property": PROP, "scenario": scen, "crash_state": {"kind": s["kind"], "note": s["note"], "copy": m["label"], "step": m["step"],
                                                                          "memory_index_order": m.get("indexes"), "files": sorted(x["name"] for x in (rec or {}).get("begin", {}).get("index_files", []) or [])},
                    "failures": [t for _, t in fails][:8], "model": md, "seed": seed, "replay_cmd": "bin/check C12 --replay <this file>"}
